@@ -83,7 +83,7 @@ SPEC = dict(
         "the EOF token's stale Pos/column (known finding eof-stale-position) is evaluated on every case; its LINE (eof_line_true) and the stale column value after a # comment (stale_column_exact) are proved about the model",
         "comment tokens are exempt from 'Pos is the first character': their Pos is the first byte of the comment TEXT (what Val holds; the opener # or /* stands directly before it - proved); they are meta data and never reach an error or a break point",
         "errors_carry_token_pos is a syntactic source fact: the judgement (operands of the constructions, of the Sprintf calls, of the value that indexes ed.breakPoints) is Go string matching in go/cmd/harness/c18extract.go and is trusted; Lean only checks 'every kind present, none refuted' over the printed list; that the error names the OFFENDING token is checked by the planted-error cases (11 parse + 13 runtime plants x 4 shapes)",
-        "the gap clause of 'Pos is the first character' is proved (gap_is_blank: only a run of blank runes between the end of the previous token's lexing and Pos / the comment opener) and additionally tested on every case by the driver's independent scan (expectedPositions); the end of a token's lexing is pinned to Pos+|Val| for keywords, symbols, identifiers and comments - for numbers, string and error tokens the C18 theorems state only Pos < end (C14Lex gives the extent of a string literal that starts a token)",
+        "the gap clause of 'Pos is the first character' is proved (gap_is_blank: only a run of blank runes between the end of the previous token's lexing and Pos / the comment opener) and additionally tested on every case by the driver's independent scan (expectedPositions); the end of a token's lexing is pinned to Pos+|Val| for keywords, symbols, identifiers, numbers and comments - for string and error tokens the C18 theorems state only Pos < end (C14Lex gives the extent of a string literal that starts a token)",
     ],
     assumptions=["sep cases: token lines never decrease along the token sequence (proved: lines_monotone), so the same-line-as-previous relation "
                  "determines every line comparison the parser makes; that parser.go uses token lines only in such comparisons (run, ndReturn, "
